@@ -135,7 +135,7 @@ SPEC = {
         "TCP: bytes written before an orderly FIN are delivered; after RST any prefix of the written frames may have been delivered (driver tries every prefix)",
         "wall-clock promptness is measured by the tie against a generous bound, not proved",
         "the pool machine is tied through the connection ids observed at the mock for one-connection pools (shards = 0): the recorded a/g/b events, with PProcess inserted by pool_labels before the next replacement (never observed itself), must be a run; a non-run is a diff",
-        "C10_root_cause is tied by a class-set check, not by a model run: a non-idempotent request the mock never saw (it is in no trace) must fail with a class in the union of the root causes of all connections that broke in the case (all delivered-prefix candidates), broken.ChannelError or pool; which connection it was queued on is not observed",
+        "C10_root_cause / C10_root_cause_run (per broken connection the only failure classes are its root cause and ChannelError) are tied by a class-set check, not by a model run: a non-idempotent request the mock never saw (it is in no trace) must fail with a class in the union of the root causes of all connections that broke in the case (all delivered-prefix candidates), broken.ChannelError or pool; which connection it was queued on is not observed",
         "accept_obs (proved sound) is evaluated before ok except (a) in corr/short/garb cases where the mock mis-framed the stream and the body is justified by the model's frame-aligned reader, (b) in a case with an excused hang (mis-framing kind, connection alive to the end of the trace, model run ends open, frame-aligned (empty read buffer) with the request pending): there accept_obs is off for the whole case",
         "a viol found by a burst case is the outcome of a race (about 2 % per burst case against the pre-fix router): a single replay usually does not reproduce it; VERIF_DEV=1 C10_REPLAY_REPEAT=<k> re-executes the burst cases of a replay k times",
     ],
